@@ -17,9 +17,32 @@ define_language! {
     }
 }
 
-pub const AR_SIG: Sig = &[("var", "s"), ("add", "cc"), ("mul", "cc"), ("neg", "c"), ("sum", "b"), ("let", "bc"), ("0", ""), ("1", ""), ("2", "")];
+pub const AR_SIG: Sig = &[("var", "s"), ("add", "cc"), ("mul", "cc"), ("neg", "c"), ("sum", "b"), ("let", "bc"), ("0", ""), ("1", ""), ("2", ""), ("3", "")];
+
+/// `sum $x b` denotes b[x:=1] + b[x:=2] + b[x:=3].  (Summing over the WHOLE field would make every summand of
+/// degree < p-1 in x vanish - e.g. sum_x x*y = sum_x x*x = 0 in F_5 - and blind the model to what happens under the
+/// binder; with three points sum_x 1 = 3, sum_x x = 1, sum_x x^2 = 4 in F_5.)
+pub const SUM_RANGE: [u32; 3] = [1, 2, 3];
+
+thread_local! {
+    /// when on, harness names become slots spelled like the library's NEXT fresh slot at the moment of first use
+    pub static AR_FRESH_NAMES: std::cell::Cell<bool> = std::cell::Cell::new(false);
+    static AR_MEMO: std::cell::RefCell<HashMap<Name, Slot>> = Default::default();
+}
 
 pub fn ar_slot(n: Name) -> Slot {
+    if AR_FRESH_NAMES.with(|c| c.get()) {
+        return AR_MEMO.with(|m| {
+            if let Some(s) = m.borrow().get(&n) {
+                return *s;
+            }
+            let probe = Slot::fresh().to_string();
+            let k: u32 = probe[2..].parse().unwrap();
+            let s = Slot::named(&format!("f{}", k + 1));
+            m.borrow_mut().insert(n, s);
+            s
+        });
+    }
     Slot::numeric(n as u32)
 }
 
@@ -78,7 +101,7 @@ pub fn eval_t(t: &T, env: &BTreeMap<Name, u32>, p: u32) -> u32 {
         "sum" => {
             let Arg::Bind(xs, _) = &t.args[0] else { panic!() };
             let mut s = 0;
-            for v in 0..p {
+            for v in SUM_RANGE {
                 let mut e = env.clone();
                 e.insert(xs[0], v);
                 s = (s + ch(0, &e)) % p;
@@ -122,7 +145,7 @@ pub fn rule_pool() -> Vec<RuleSpec> {
         r("mul-zero", "(mul ?a 0)", "0"),
         r("neg-add", "(add ?a (neg ?a))", "0"),
         r("neg-neg", "(neg (neg ?a))", "?a"),
-        c("sum-const", "(sum $x ?c)", "0", "x", "c"),
+        c("sum-const", "(sum $x ?c)", "(mul 3 ?c)", "x", "c"),
         r("sum-linear", "(sum $x (add ?a ?b))", "(add (sum $x ?a) (sum $x ?b))"),
         c("sum-factor-out", "(sum $x (mul ?c ?b))", "(mul ?c (sum $x ?b))", "x", "c"),
         r("sum-factor-in", "(mul ?a (sum $x ?b))", "(sum $x (mul ?a ?b))"),
@@ -133,8 +156,8 @@ pub fn rule_pool() -> Vec<RuleSpec> {
         r("let-add", "(let $x (add ?a ?b) ?e)", "(add (let $x ?a ?e) (let $x ?b ?e))"),
         r("let-var", "(let $x (var $x) ?e)", "?e"),
         r("let-under-sum", "(let $x (sum $y ?b) ?e)", "(sum $y (let $x ?b ?e))"),
-        c("sum-drop-const-summand", "(sum $x (add ?a ?b))", "(sum $x ?b)", "x", "a"),
-        RuleSpec { name: "sum-both-const", lhs: "(sum $x (add ?a ?c))", rhs: "0", not_free: Some(("x", "a")), not_free2: Some(("x", "c")) },
+        c("sum-drop-const-summand", "(sum $x (add ?a ?b))", "(add (mul 3 ?a) (sum $x ?b))", "x", "a"),
+        RuleSpec { name: "sum-both-const", lhs: "(sum $x (add ?a ?c))", rhs: "(mul 3 (add ?a ?c))", not_free: Some(("x", "a")), not_free2: Some(("x", "c")) },
         // wrong as soon as only ONE of the two conditions is enforced (the summation rule above stays valid in
         // F_p for many non-constant summands, this one does not): dropping the binding frees $x
         // the right side names a slot that the left side does not have: the class is united with a renamed copy of
@@ -284,7 +307,7 @@ pub fn nt_eval(t: &NT, env: &BTreeMap<String, u32>, p: u32) -> u32 {
         NT::Neg(a) => (p - nt_eval(a, env, p)) % p,
         NT::Sum(x, b) => {
             let mut s = 0;
-            for v in 0..p {
+            for v in SUM_RANGE {
                 let mut e = env.clone();
                 e.insert(x.clone(), v);
                 s = (s + nt_eval(b, &e, p)) % p;
@@ -708,7 +731,7 @@ pub fn eval_node(n: &Ar, env: &HashMap<Slot, u32>, m: &Model) -> Option<u32> {
         Ar::Neg(a) => (p - eval_child(a, env, m)?) % p,
         Ar::Sum(b) => {
             let mut s = 0;
-            for v in 0..p {
+            for v in SUM_RANGE {
                 let mut e = env.clone();
                 e.insert(b.slot, v);
                 s = (s + eval_child(&b.elem, &e, m)?) % p;
